@@ -31,7 +31,7 @@ func init() {
 		Quick: 6000, Thorough: 600000,
 		Run:        runC07,
 		Rule:       "one run = one generated (type, value) whose encoding E decodes; evaluations = individual faulted decodes: every prefix of E (exhaustive), 6 byte substitutions at every offset (all offsets up to 512 bytes, sampled beyond), every length prefix at every nesting level inflated to 13 values in minimal and padded form, every varint re-encoded over-long, wire-type swaps of every declared field, a foreign field of each wire type and of 3 undeclared numbers inserted at every field boundary of every nesting level, decodes into a different type, random strings. non-trivial = E has at least 2 bytes; distinct = distinct hash of (type, E)",
-		FaultKinds: []string{"tear(prefix)", "rot(byte-substitution)", "length-inflation", "overlong-varint", "overflow-varint(10th byte > 1)", "wire-type-swap", "foreign-field:varint", "foreign-field:fixed64", "foreign-field:varlen", "foreign-field:fixed32", "foreign-field-nested-level", "cross-type-decode", "random-bytes", "cut-inside-length-prefix", "cut-inside-embedded-message"},
+		FaultKinds: []string{"tear(prefix)", "rot(byte-substitution)", "length-inflation", "overlong-varint", "overflow-varint(10th byte > 1)", "wire-type-swap", "foreign-field:varint", "foreign-field:fixed64", "foreign-field:varlen", "foreign-field:fixed32", "foreign-field-nested-level", "cross-type-decode", "random-bytes", "scaling-probe(n vs 8n elements)", "cut-inside-length-prefix", "cut-inside-embedded-message"},
 		ProbeNames: []string{"messages", "roundtrip-precondition-failed(skipped)", "scan-checked", "scan-vs-skip-checked", "alloc-precise-samples", "levels>1", "torn-input-accepted-as-value", "torn-input-rejected", "rot-accepted", "rot-rejected", "inflated-rejected", "E>=128B", "E>=1KiB"},
 		Real:       []string{"proto.Unmarshal, proto.Parse, proto.Scan, RawValue methods compiled from /repo's working tree (uninstrumented)"},
 		Model:      []string{"storage/transport medium: fault operators over the encoded bytes", "reference protobuf wire parser and schema walker (verifsim/ref) used to locate lengths, varints and field boundaries and to build foreign fields"},
@@ -62,7 +62,7 @@ func heapAllocs() uint64 {
 }
 
 func protoOpaque(t reflect.Type) bool {
-	return t == reflect.TypeOf(PMsg{}) || t == reflect.TypeOf(PCustom{}) || t == reflect.TypeOf(proto.RawMessage(nil))
+	return t == reflect.TypeOf(PMsg{}) || t == reflect.TypeOf(PCustom{}) || t == reflect.TypeOf(PGogo{}) || t == reflect.TypeOf(proto.RawMessage(nil))
 }
 
 type c07Ctx struct {
@@ -305,6 +305,11 @@ func runC07(r *core.Run) {
 		return
 	}
 
+	if t.Chance(1, 60) {
+		if !c07Scaling(r) {
+			return
+		}
+	}
 	ty := c07Type(t)
 	vg := &gen.Values{T: t, C: gen.Proto, MaxMap: 3, MaxLen: 4}
 	switch t.Pick(6, 2, 1) {
@@ -603,6 +608,65 @@ func warmProto(rt reflect.Type) {
 	defer func() { recover() }()
 	x := reflect.New(rt)
 	proto.Unmarshal([]byte{0xf8, 0xff, 0xff, 0xff, 0x0f, 0x00}, x.Interface())
+}
+
+func totalAlloc() uint64 {
+	var ms runtime.MemStats
+	runtime.ReadMemStats(&ms)
+	return ms.TotalAlloc
+}
+
+// c07Scaling checks that memory allocated grows linearly with the input: a
+// message with 8 times as many repeated elements / map entries may allocate at
+// most 16 times as much (plus slack).  A constant factor cannot be told from a
+// slowly growing one at one input size; the ratio at two sizes can.
+func c07Scaling(r *core.Run) bool {
+	t := r.T
+	type probe struct {
+		name string
+		rt   reflect.Type
+		rec  func(i int) []byte
+	}
+	probes := []probe{
+		{"PWithMsgs.U (repeated varint)", reflect.TypeOf(PWithMsgs{}), func(i int) []byte { return []byte{0x40, byte(i & 0x7f)} }},
+		{"PNode.Kids (repeated message)", reflect.TypeOf(PNode{}), func(i int) []byte { return []byte{0x1a, 0x02, 0x08, byte(i & 0x7f)} }},
+		{"PMaps.A (map<string,string>)", reflect.TypeOf(PMaps{}), func(i int) []byte {
+			return []byte{0x0a, 0x07, 0x0a, 0x03, byte('a' + i%26), byte('a' + (i/26)%26), byte('a' + (i/676)%26), 0x12, 0x00}
+		}},
+	}
+	p := probes[t.Intn(len(probes))]
+	n := []int{1500, 2048, 3000}[t.Intn(3)]
+	build := func(k int) []byte {
+		var b []byte
+		for i := 0; i < k; i++ {
+			b = append(b, p.rec(i)...)
+		}
+		return b
+	}
+	warmProto(p.rt)
+	measure := func(in []byte) (uint64, error, string) {
+		x := reflect.New(p.rt)
+		before := totalAlloc()
+		err, pan := unmarshalNoPanic(in, x.Interface())
+		return totalAlloc() - before, err, pan
+	}
+	small, big := build(n), build(8*n)
+	a1, e1, p1 := measure(small)
+	a8, e8, p8 := measure(big)
+	r.Evaluations += 2
+	r.Fault("scaling-probe(n vs 8n elements)")
+	if p1 != "" || p8 != "" {
+		r.Fail("panic", "unmarshal-panic:"+panicSite(p1+p8), "proto.Unmarshal panicked on %d / %d %s: %s%s", n, 8*n, p.name, p1, p8)
+		return false
+	}
+	if e1 != nil || e8 != nil {
+		core.Harness("C07 scaling probe input rejected: %v %v", e1, e8)
+	}
+	if a8 > 16*a1+1<<20 {
+		r.Fail("allocation", "alloc-superlinear", "proto.Unmarshal of %s: %d elements (%d bytes) allocate %d bytes, %d elements (%d bytes) allocate %d bytes: 8 times the input costs %.1f times the memory (bound 16x + 1 MiB)", p.name, n, len(small), a1, 8*n, len(big), a8, float64(a8)/float64(a1+1))
+		return false
+	}
+	return true
 }
 
 func schemaDeclares(s *ref.PSchema, num uint64) bool { return s.Declared[num] }
